@@ -306,3 +306,12 @@ def load_corpus(prop):
             if f.endswith(".case"):
                 res.append([l.strip() for l in open(os.path.join(d, f)) if l.strip() and not l.startswith("#")])
     return res
+
+
+def san_summary(err):
+    """one line out of a sanitizer report"""
+    for l in (err or "").splitlines():
+        if "ERROR:" in l or "runtime error" in l or "SUMMARY:" in l or "panic" in l.lower():
+            return l.strip()[:240]
+    ls = [l for l in (err or "").splitlines() if l.strip() and not l.startswith("=")]
+    return ls[0].strip()[:240] if ls else ""
